@@ -309,13 +309,20 @@ where
     /// ```
     pub fn disconnect(&self, other: &K) -> Result<E, Error> {
         match self.find_outbound(other) {
-            Some(other) => match self.inner.2.write().unwrap().remove_outbound(other.key()) {
-                Ok(edge) => {
-                    other.inner.2.write().unwrap().remove_inbound(self.key())?;
-                    Ok(edge)
+            Some(other) => {
+                // The lock of `self` must be released before `other` is locked:
+                // for a self-loop both are the same `RwLock`, and holding one node's
+                // lock while waiting for another's deadlocks against a concurrent
+                // `disconnect` in the opposite direction.
+                let removed = self.inner.2.write().unwrap().remove_outbound(other.key());
+                match removed {
+                    Ok(edge) => {
+                        other.inner.2.write().unwrap().remove_inbound(self.key())?;
+                        Ok(edge)
+                    }
+                    Err(_) => Err(Error::EdgeNotFound),
                 }
-                Err(_) => Err(Error::EdgeNotFound),
-            },
+            }
             None => Err(Error::EdgeNotFound),
         }
     }
